@@ -603,8 +603,16 @@ def exact_div(za, zb):
         return z3.RealVal(0)
     terms = za_s.children() if (z3.is_app(za_s) and za_s.decl().kind() == z3.Z3_OP_ADD) else [za_s]
     out = []
+    def factors(t):
+        if z3.is_app(t) and t.decl().kind() == z3.Z3_OP_MUL:
+            out_ = []
+            for ch in t.children():
+                out_.extend(factors(ch))
+            return out_
+        return [t]
+
     for t in terms:
-        fs = t.children() if (z3.is_app(t) and t.decl().kind() == z3.Z3_OP_MUL) else [t]
+        fs = factors(t)
         k = next((i for i, f in enumerate(fs) if f.eq(zb_s)), None)
         if k is None:
             return None
@@ -639,6 +647,7 @@ def _floor_parts(a, b):
     za, zb = to_real(za), to_real(zb)
     q = c.fresh("fd_q", "Int")
     s = exact_div(za, zb)
+    exact = s is not None
     if s is None:
         s = c.fresh("fd_s", "Real")
         c.defs.append(za == s * zb)
@@ -647,6 +656,11 @@ def _floor_parts(a, b):
     c.defs.append(s < z3.ToReal(q) + 1)
     c.trace.append(("division", zb))
     rem = (s - z3.ToReal(q)) * zb
+    # redundant but linear consequences of the definition (0 <= s-q < 1): the remainder has the sign of the
+    # divisor and is smaller in magnitude -- spares the solver a non-linear derivation
+    if not exact:
+        c.defs.append(z3.Implies(zb > 0, z3.And(rem >= 0, rem < zb)))
+        c.defs.append(z3.Implies(zb < 0, z3.And(rem <= 0, rem > zb)))
     res = (Sym(z3.ToReal(q)), Sym(rem))
     c.floordiv_cache[key] = res
     c.floordiv_cache[("q", res[0].e.get_id())] = q
